@@ -20,6 +20,7 @@ THEOREMS = [(M, "NQ.C03." + n) for n in [
     "nonvacuous_exec",
     "source_operand_text_roundtrip", "replaceConstants_preserves_reserved", "reserved_not_scratch",
     "reserved_preserved", "F42_reserved_witness",
+    "assemble_pure", "assemble_twice", "imm_exempt",
 ]]
 TRANSLATORS = ["instr_table", "asm_pass_tables"]
 LEVEL_TEXT = (
@@ -40,7 +41,10 @@ LEVEL_TEXT = (
     "and of the text front end. All theorems carry the reserved set: reserved registers are never scratch and "
     "keep their values. A model-free STATIC oracle checks on the real output of every accepted program (any "
     "vanilla instruction, nothing executed) the block structure, that every scratch register is named nowhere "
-    "in the source (top level, entry index, slice bounds) nor reserved, operand patching and label targets.")
+    "in the source (top level, entry index, slice bounds) nor reserved, operand patching and label targets. "
+    "IR as programs build it (shared ICmd / operands-list / ArrayEntry objects, a container with a copying "
+    "`commands` accessor, the same ProtoSubroutine assembled twice) must assemble like the IR with fresh objects; "
+    "`assemble_twice` proves the model's fixed-point property.")
 LEVEL_NOTE = (
     "Trusted: Lean kernel; translator + harness; the hand-written role table of the 21 classical/array/"
     "allocation instructions (which operand positions are read / written / immediate / target), validated "
@@ -142,6 +146,38 @@ RESERVED_CORPUS = [
 ]
 
 
+# IR with shared objects / private container / assembled twice: (program, (share_seed, private, twice)).
+# share_seed 0 with these programs shares every equal command and bracket operand.
+_E5 = {"e": [0, {"i": 5}]}
+ALIAS_CORPUS = [
+    # one ArrayEntry object used by two commands, another literal in between (the scratch is reused)
+    ([{"m": "array", "a": [], "o": [{"i": 8}, {"a": 0}]}, {"m": "set", "a": [], "o": [{"r": [0, 0]}, {"i": 3}]},
+      {"m": "store", "a": [], "o": [{"r": [0, 0]}, dict(_E5)]},
+      {"m": "add", "a": [], "o": [{"r": [0, 1]}, {"r": [0, 0]}, {"i": 2}]},
+      {"m": "load", "a": [], "o": [{"r": [0, 1]}, dict(_E5)]}, {"m": "ret_reg", "a": [], "o": [{"r": [0, 1]}]}],
+     ("op", False, False)),
+    # the same ICmd object twice
+    ([{"m": "set", "a": [], "o": [{"r": [0, 0]}, {"i": 0}]},
+      {"m": "add", "a": [], "o": [{"r": [0, 0]}, {"r": [0, 0]}, {"i": 1}]},
+      {"m": "sub", "a": [], "o": [{"r": [0, 1]}, {"r": [0, 0]}, {"i": 9}]},
+      {"m": "add", "a": [], "o": [{"r": [0, 0]}, {"r": [0, 0]}, {"i": 1}]},
+      {"m": "ret_reg", "a": [], "o": [{"r": [0, 0]}]}], ("cmd", False, False)),
+    # two commands sharing one operands list (seeded change C03_7)
+    ([{"m": "set", "a": [], "o": [{"r": [0, 0]}, {"i": 1}]},
+      {"m": "add", "a": [], "o": [{"r": [0, 0]}, {"r": [0, 0]}, {"i": 5}]},
+      {"m": "store", "a": [], "o": [{"i": 4}, {"e": [1, {"i": 0}]}]},
+      {"m": "add", "a": [], "o": [{"r": [0, 0]}, {"r": [0, 0]}, {"i": 5}]}], ("list", False, False)),
+    # a container with a defensive-copy accessor (seeded change C03_8), also assembled twice
+    ([{"m": "set", "a": [], "o": [{"r": [0, 0]}, {"i": 5}]}, {"m": "array", "a": [4], "o": [{"a": 0}]}, {"l": "LOOP"},
+      {"m": "store", "a": [], "o": [{"r": [0, 0]}, {"e": [0, {"i": 1}]}]},
+      {"m": "sub", "a": [], "o": [{"r": [0, 0]}, {"r": [0, 0]}, {"i": 1}]},
+      {"m": "bne", "a": [], "o": [{"r": [0, 0]}, {"i": 3}, {"lab": "LOOP"}]},
+      {"m": "ret_reg", "a": [], "o": [{"r": [0, 0]}]}], (None, True, False)),
+    ([{"m": "add", "a": [], "o": [{"r": [0, 0]}, {"r": [0, 0]}, {"i": 1}]}, {"l": "L"},
+      {"m": "jmp", "a": [], "o": [{"lab": "L"}]}], (None, True, True)),
+]
+
+
 def _key(p):
     return json.dumps(p, sort_keys=True)
 
@@ -165,9 +201,20 @@ def run(ctx):
     for p, rv in RESERVED_CORPUS:
         progs.append(copy.deepcopy(p))
         resv.append([tuple(r) for r in rv])
+    variants = {}  # index -> (share_seed, private, twice): how the IR of that case is built and assembled
+    for p, how in ALIAS_CORPUS:
+        variants[len(progs)] = how
+        progs.append(copy.deepcopy(p))
+        resv.append([])
     for gen, n in ((H.gen_std_program, n_std), (H.gen_wild_program, n_wild)):
         for _ in range(n):
             p = gen(rng)
+            if rng.random() < 0.05:
+                # IR as programs build it: repeated commands, shared objects, a container with a
+                # defensive-copy accessor, the same ProtoSubroutine assembled twice
+                p = H.duplicate_some(rng, p)
+                variants[len(progs)] = (rng.randrange(1 << 30) if rng.random() < 0.8 else None,
+                                        rng.random() < 0.3, rng.random() < 0.3)
             progs.append(p)
             resv.append(H.gen_reserved(rng, p))
 
@@ -183,6 +230,8 @@ def run(ctx):
         real.append(r)
     model = H.batch(drv, [req(p, rv) for p, rv in zip(progs, resv)])
     n_static = 0
+    n_alias = 0
+    progs_index = {id(p): i for i, p in enumerate(progs)}
     for p, rv, r, m in zip(progs, resv, real, model):
         res.evaluations += 1
         res.count("assemble:" + ("ok" if "ok" in r else r["err"]))
@@ -195,6 +244,39 @@ def run(ctx):
                                       "model": drv.call(req(small, rv)), "code": H.real_assemble(small, rv)[0]})
             if len(res.disagreements) > 5:
                 break
+        # the meaning of an IR is its values: shared objects, the container's accessor and a repeated
+        # assembly of the same ProtoSubroutine must not change the subroutine (model-free, real vs real)
+        how = variants.get(progs_index[id(p)])
+        if how is not None and n_alias <= 5:
+            seed_, priv_, twice_ = how
+            res.count("ir:" + ("shared" if seed_ is not None else "fresh") + ("+private" if priv_ else "")
+                      + ("+twice" if twice_ else ""))
+            got = H.real_assemble(p, rv, seed_, priv_, twice_)[0]
+            if seed_ is not None:
+                nc, nl, no = H.real_assemble.last_sharing
+                res.count("ir-shared-objects:cmd=%d list=%d operand=%s" % (min(nc, 2), min(nl, 2), "0" if no == 0 else "1+"))
+            if got != r:
+                n_alias += 1
+
+                def afails(q, rv=rv, how=how):
+                    return H.real_assemble(q, rv, *how)[0] != H.real_assemble(q, rv)[0]
+
+                small = H.shrink(p, afails)
+                trig = list(how)
+                for k, off in ((2, False), (1, False), (0, None)):
+                    trial = list(trig)
+                    trial[k] = off
+                    if H.real_assemble(small, rv, *trial)[0] != H.real_assemble(small, rv)[0]:
+                        trig = trial
+                what = ("the assembled subroutine depends on object sharing inside the IR (aliasing)" if trig[0] is not None
+                        else "the assembled subroutine depends on the ProtoSubroutine's `commands` accessor" if trig[1]
+                        else "assembling the same ProtoSubroutine a second time gives a different subroutine")
+                res.failures.append({"what": what, "kf": None,
+                                     "input": {"program": small, "reserved": [list(x) for x in rv],
+                                               "share_seed": trig[0], "private_container": trig[1], "twice": trig[2],
+                                               "shared_objects(cmd,list,operand)": list(H.sharing_of(H.to_real(small, trig[0]))) if trig[0] is not None else None,
+                                               "fresh_objects": H.real_assemble(small, rv)[0],
+                                               "this_ir": H.real_assemble(small, rv, *trig)[0]}})
         # model-free static oracle on the real output (any vanilla instruction, nothing is executed)
         if "ok" in r and n_static <= 5:
             bad = H.static_oracle(p, r["ok"], rv)
